@@ -46,7 +46,8 @@ def zj(n):
 
 
 def parse_cases(printed):
-    """CASE / NODIST lines of JavaExprGen -> (cases, nodist); cases sorted into a canonical order."""
+    """CASE / NODIST lines of JavaExprGen -> (cases, nodist); cases sorted into a canonical order.  LATENT lines
+    (pairs the printer model would get wrong but which never reach it) are appended to nodist with latent = True."""
     cases, nodist = [], []
     for line in printed:
         if not isinstance(line, str):
@@ -55,6 +56,8 @@ def parse_cases(printed):
             cases.append(json.loads(line[5:]))
         elif line.startswith("NODIST "):
             nodist.append(json.loads(line[7:]))
+        elif line.startswith("LATENT "):
+            nodist.append(dict(json.loads(line[7:]), latent=True, req=True, n=-1))
     cases.sort(key=lambda c: (c["kind"], c["op"], c.get("slot", 0), c.get("child", ""), json.dumps(c["tree"], sort_keys=True)))
     for i, c in enumerate(cases):
         c["id"] = i + 1
@@ -164,8 +167,9 @@ OPT_PRINTERS = {
 }
 
 
-def render(cases, sig):
-    """One Aldor program for a batch of cases; case k prints exactly one line."""
+def render(cases, sig, chunk=CHUNK):
+    """One Aldor program for a batch of cases; case k prints exactly one line.  chunk: cases per function (at -Q5 and
+    above the printing helpers are inlined into every case, so the functions must be much shorter)."""
     pools, uses, printers, wrappers, lines = Pools(), set(), set(), {}, []
     for c in cases:
         t = c["tree"]
@@ -193,9 +197,9 @@ def render(cases, sig):
     extra += [wrappers[op] for op in sorted(wrappers)]
     out = [HEADER % ("\n".join(sig_text(op, sig[op]) for op in sorted(uses)), max(1, len(pools.s)), max(1, len(pools.z)),
                      "\n".join(extra))]
-    nchunks = (len(lines) + CHUNK - 1) // CHUNK
+    nchunks = (len(lines) + chunk - 1) // chunk
     for n in range(nchunks):
-        out.append("c%d(): () == {\n  %s\n}" % (n, "\n  ".join(lines[n * CHUNK:(n + 1) * CHUNK])))
+        out.append("c%d(): () == {\n  %s\n}" % (n, "\n  ".join(lines[n * chunk:(n + 1) * chunk])))
     # the pools are filled in functions as well (a few hundred assignments at file level would make one huge method)
     fills = ["bp.(0@Z) := false; bp.(1@Z) := true;"]
     fills += ["sp.(%d@Z) := %s;" % (k, int_lit(n, "Z")) for n, k in sorted(pools.s.items(), key=lambda x: x[1])]
